@@ -54,7 +54,7 @@ def escape (s : List Char) : String :=
   if s.isEmpty then "\\e;" else
   String.ofList (s.flatMap fun c =>
     if c.toNat > 0x20 && c.toNat < 0x7f && c != '\\' then [c]
-    else ['\\'] ++ toHex c.toNat ++ [';'])
+    else ['\\'] ++ (let h := toHex c.toNat; if h.length < 2 then '0' :: h else h) ++ [';'])
 
 def fields (line : String) : List (List Char) :=
   (line.splitOn "\t").map fun f => unescape f.toList
